@@ -6,6 +6,7 @@ CONSTANTS
   D = 2
   MaxEvents = 6
   MaxFails = 0
+  Extra = "none"
   Backoff = FALSE
   Closed = TRUE
   ObserveCb = TRUE
